@@ -1275,10 +1275,15 @@ def groupby_projection(expr, parent, dependents):
         columns = [col for col in expr.frame.columns if col in columns]
         if columns == expr.frame.columns:
             return
-        return type(parent)(
-            type(expr)(expr.frame[columns], *expr.operands[1:]),
-            *parent.operands[1:],
-        )
+        operands = list(expr.operands)
+        operands[0] = expr.frame[columns]
+        if "_slice" in expr._parameters and isinstance(expr._slice, list):
+            # The selection applied to the groups has to follow the projection,
+            # otherwise it refers to columns that were just dropped
+            operands[expr._parameters.index("_slice")] = [
+                col for col in expr._slice if col in columns
+            ]
+        return type(parent)(type(expr)(*operands), *parent.operands[1:])
     return
 
 
